@@ -3,12 +3,28 @@ use std::path::PathBuf;
 
 fn main() {
     let args: Vec<String> = std::env::args().skip(1).collect();
-    if args.len() < 2 && args.first().map(|a| a != "gen-fuzz-seeds" && a != "dump-fuzz").unwrap_or(true) {
+    if args.len() < 2 && args.first().map(|a| a != "gen-fuzz-seeds" && a != "dump-fuzz" && a != "frag-init").unwrap_or(true) {
         eprintln!("usage: verif <Cxx> <quick|thorough> | verif <Cxx> --replay <file>");
         std::process::exit(2);
     }
     if args[0] == "gen-fuzz-seeds" {
         harness::fuzz::write_seeds(&PathBuf::from(std::env::var("VERIF_ROOT").unwrap_or_else(|_| "/verif".into())));
+        return;
+    }
+    if args[0] == "frag-init" {
+        // verif frag-init <InitCase json>: hex of the init segment, computed in this (fresh) process - C17's reference for
+        // "nothing carried over from other muxers in the process"
+        harness::exec::install_panic_hook();
+        match serde_json::from_str::<harness::props::c07::InitCase>(args.get(1).map(|s| s.as_str()).unwrap_or("")) {
+            Ok(c) => match harness::props::c07::init_bytes(&c) {
+                Some(b) => println!("{}", b.iter().map(|x| format!("{:02x}", x)).collect::<String>()),
+                None => println!("none"),
+            },
+            Err(e) => {
+                eprintln!("bad case: {}", e);
+                std::process::exit(2);
+            }
+        }
         return;
     }
     if args[0] == "dump-fuzz" {
